@@ -96,7 +96,7 @@ Proof.
   destruct k; cbn; try discriminate; intros _;
     try (destruct (addr_str_to_cidr v); reflexivity);
     try (destruct (convert_to_port v); reflexivity);
-    try reflexivity; destruct tcp; reflexivity.
+    try reflexivity; destruct tcp; try reflexivity; cbn; destruct (contains_path_template v); reflexivity.
 Qed.
 
 Lemma gen_prin_ok k key v tcp ua :
